@@ -680,13 +680,28 @@ func genCtxFacts() string {
 			env.parent, env.actor, env.errv = p[0], p[1], cfNamedResult(fd)
 		}))},
 		// InitializeRuntime(); if ec, ok := parentCtx.(px.Context); ok { THIS } else { … }
+		// or, the same branch written with an early return:  …; if ec, ok := …; ok { THIS; return }; …
 		{"rtDoWithParentCtx", rtF.field("rt", "DoWithParent", 2, func(env *cfEnv, fd *ast.FuncDecl, p []string) ([]ast.Stmt, []string, bool) {
 			l := fd.Body.List
-			if len(l) != 2 || cfAct(env, l[0]) != ".initRuntime" {
+			if len(l) < 2 || cfAct(env, l[0]) != ".initRuntime" {
 				return nil, nil, false
 			}
 			is, ok := l[1].(*ast.IfStmt)
-			if !ok || is.Else == nil {
+			if !ok {
+				return nil, nil, false
+			}
+			then := is.Body.List
+			if is.Else == nil {
+				// early-return form: the branch must end with a bare `return` and something must follow the `if`
+				if len(l) < 3 || len(then) == 0 {
+					return nil, nil, false
+				}
+				rs, isRet := then[len(then)-1].(*ast.ReturnStmt)
+				if !isRet || len(rs.Results) != 0 {
+					return nil, nil, false
+				}
+				then = then[:len(then)-1]
+			} else if len(l) != 2 {
 				return nil, nil, false
 			}
 			a, ok := is.Init.(*ast.AssignStmt)
@@ -699,7 +714,7 @@ func genCtxFacts() string {
 				return nil, nil, false
 			}
 			env.parent, env.actor = ec, p[1]
-			return is.Body.List, []string{".initRuntime"}, true
+			return then, []string{".initRuntime"}, true
 		})},
 		{"rtRootContext", rtF.field("rt", "RootContext", 0, cfWhole(func(env *cfEnv, fd *ast.FuncDecl, p []string) {}))},
 		{"tlInit", tlF.tlField("Init")},
